@@ -812,6 +812,66 @@ func c14AfterWstat(dotu bool) Scenario {
 	}}
 }
 
+// c14ForeignFiles: a server run by an ordinary user exports files it does not own but
+// may read (or write): every open mode the host grants that user works through 9P and
+// transfers the bytes the host holds.
+func c14ForeignFiles(dotu bool) Scenario {
+	name := fmt.Sprintf("files owned by somebody else, served by an ordinary user dotu=%v", dotu)
+	return Scenario{Name: name, Run: func(rc *RunCtx) *Result {
+		res := &Result{Exhaustive: true}
+		base, root := scratchDir("c14f")
+		defer os.RemoveAll(base)
+		content := pattern(300, 9)
+		files := map[string]os.FileMode{"readable": 0o644, "writable": 0o666, "group-only": 0o640, "write-only": 0o622}
+		for n, m := range files {
+			os.WriteFile(filepath.Join(root, n), content, 0o600)
+			os.Chmod(filepath.Join(root, n), m)
+		}
+		openUp(base, root)
+		defer asOrdinaryUser()()
+		seen := map[string]bool{}
+		bad := withUfsClient(root, 8216, dotu, func(c *go9p.Clnt, h *SrvH) string {
+			for n := range files {
+				for _, mode := range []uint8{go9p.OREAD, go9p.OWRITE, go9p.ORDWR, go9p.OEXEC} {
+					// what the host grants this user
+					flag := map[uint8]int{go9p.OREAD: os.O_RDONLY, go9p.OWRITE: os.O_WRONLY, go9p.ORDWR: os.O_RDWR, go9p.OEXEC: os.O_RDONLY}[mode]
+					hf, herr := os.OpenFile(filepath.Join(root, n), flag, 0)
+					if hf != nil {
+						hf.Close()
+					}
+					res.Evals++
+					f, err := c.FOpen(n, mode)
+					if (err == nil) != (herr == nil) {
+						sig := fmt.Sprintf("open/%s/mode-%d", n, mode)
+						if !seen[sig] {
+							seen[sig] = true
+							res.Findings = append(res.Findings, Finding{Sig: "C14/foreign-file/" + sig, Msg: fmt.Sprintf("a file of mode %o owned by another user, opened with mode %d by a server run as an ordinary user: 9P says %v, the host says %v", files[n], mode, err, herr)})
+						}
+					}
+					if err != nil {
+						continue
+					}
+					if mode == go9p.OREAD || mode == go9p.ORDWR {
+						buf := make([]byte, 400)
+						k, _ := f.ReadAt(buf, 0)
+						want, _ := os.ReadFile(filepath.Join(root, n))
+						if herr == nil && want != nil && !bytes.Equal(buf[:k], want) {
+							return fmt.Sprintf("reading %q (owned by another user) returned %d bytes, the file holds %d", n, k, len(want))
+						}
+					}
+					f.Close()
+				}
+			}
+			return ""
+		})
+		res.Nontrivial = res.Evals
+		if bad != "" {
+			res.Findings = append(res.Findings, Finding{Sig: "C14/foreign-file/" + sigWords(bad), Msg: bad})
+		}
+		return res
+	}}
+}
+
 // c14NoChange is a Dir whose every field says "leave it as it is".
 func c14NoChange() *go9p.Dir {
 	return &go9p.Dir{Type: ^uint16(0), Dev: ^uint32(0), Qid: go9p.Qid{Type: 0xFF, Version: ^uint32(0), Path: ^uint64(0)}, Mode: ^uint32(0), Atime: ^uint32(0), Mtime: ^uint32(0), Length: ^uint64(0), Uidnum: go9p.NOUID, Gidnum: go9p.NOUID, Muidnum: go9p.NOUID}
@@ -820,6 +880,7 @@ func c14NoChange() *go9p.Dir {
 func c14Scenarios(tier string) []Scenario {
 	var out []Scenario
 	out = append(out, c14AfterWstat(false), c14AfterWstat(true))
+	out = append(out, c14ForeignFiles(false), c14ForeignFiles(true))
 	msizes := []uint32{32, 40, 152}
 	if tier == "thorough" {
 		msizes = []uint32{32, 33, 40, 152, 4120, 65560}
